@@ -149,6 +149,64 @@ def older_version_spec(spec):
     return None
 
 
+def language_graph_by_route(case, spec_given):
+    """-> (language graph, the specification dict it was given).  The language graph under test is built through one of the routes that have to be equivalent: the constructor
+    on the specification dict (60 %), MAL source through the compiler (10 %, generated languages), a .mar archive through from_mar_archive / load_from_file, or the
+    specification written by save_language_specification_to_json of an earlier graph and read back.  The route
+    is a function of the case (case['lang_route'], kept in the replay file)."""
+    import zlib, zipfile
+    from maltoolbox.language import LanguageGraph
+    route = case.get('lang_route')
+    if route is None:
+        route = zlib.crc32(('route' + json.dumps(case.get('amodel', case['spec']), sort_keys=True)).encode()) % 10
+        case['lang_route'] = route
+    route_key = zlib.crc32(json.dumps(case['spec'], sort_keys=True).encode())
+    if route == 3 and case.get('source') != 'corelang':
+        # MAL source: the specification is printed and goes through the compiler (C04 decides that the compiler
+        # returns the language the text denotes; here the graph built from its output is judged like any other)
+        import random, shutil, tempfile
+        from .malprint import print_spec, canonical_order_ok
+        d = None
+        try:
+            if not canonical_order_ok(spec_given):
+                raise ValueError('order')
+            text = print_spec(spec_given, random.Random(route_key))
+            d = tempfile.mkdtemp(prefix='lang-src-', dir=os.getcwd())
+            with open(os.path.join(d, 'main.mal'), 'w', encoding='utf-8', newline='') as f:
+                f.write(text)
+        except ValueError:
+            if d:
+                shutil.rmtree(d, ignore_errors=True)
+            return LanguageGraph(spec_given), spec_given
+        try:
+            _stat('language-graph-built-from-mal-source')
+            lg = LanguageGraph.from_mal_spec(os.path.join(d, 'main.mal')) if route_key % 2 else \
+                LanguageGraph.load_from_file(os.path.join(d, 'main.mal'))
+            return lg, lg._lang_spec
+        finally:
+            shutil.rmtree(d, ignore_errors=True)
+    if route >= 3:
+        return LanguageGraph(spec_given), spec_given
+    # one fixed path per process: every archive overwrites the previous one, as a rebuilt language does
+    base = os.path.join(os.getcwd(), 'lang')
+    try:
+        if route in (0, 1):
+            with zipfile.ZipFile(base + '.mar', 'w') as z:
+                z.writestr('langspec.json', json.dumps(spec_given))
+            _stat('language-graph-built-from-mar-archive')
+            if route == 0:
+                return LanguageGraph.from_mar_archive(base + '.mar'), spec_given
+            return LanguageGraph.load_from_file(base + '.mar'), spec_given
+        first = LanguageGraph(copy.deepcopy(spec_given))
+        first.save_language_specification_to_json(base + '.json')
+        with open(base + '.json', encoding='utf-8') as f:
+            spec_given = json.load(f)
+        _stat('language-graph-built-from-saved-specification')
+        return LanguageGraph(spec_given), spec_given
+    finally:
+        pass
+
+
 class Built:
     """real objects for a case, built from the working tree's classes"""
 
@@ -166,7 +224,7 @@ class Built:
         self.noise = []
         if irng:
             self._other_language_graphs(irng)
-        self.lang_graph = LanguageGraph(self.spec_given)
+        self.lang_graph = self._language_graph(case)
         if irng:
             self._other_language_graphs(irng)
         self.factory = LanguageClassesFactory(self.lang_graph)
@@ -176,6 +234,10 @@ class Built:
         if irng:
             _stat('cases-built-with-interference')
             self._refused_calls(irng)
+
+    def _language_graph(self, case):
+        lg, self.spec_given = language_graph_by_route(case, self.spec_given)
+        return lg
 
     def _other_language_graphs(self, irng):
         from maltoolbox.language import LanguageGraph
